@@ -167,6 +167,7 @@ func runPE(g *groups.Info, bhs [][]peStep, cfg Config, res *core.Result) int {
 		if core.Hash64(fmt.Sprint(cfg.Seed), g.Name, id) > keep {
 			continue
 		}
+		msgBuf := make([]byte, 512)
 		st := map[string]*advStream{}
 		kt := map[string]kyber.Scalar{}
 		pt := map[string]kyber.Point{}
@@ -262,7 +263,16 @@ func runPE(g *groups.Info, bhs [][]peStep, cfg Config, res *core.Result) int {
 					}
 					pt[s.P], data[s.P], produced = p, want, s.P
 				case "hash":
-					p, has := hashTo(g, g.NewPoint(), peMsg(s.M, cfg.Seed), s.Dst)
+					// all messages of a behaviour travel in ONE caller-owned buffer that is overwritten in
+					// place between calls (exposes caches keyed by the caller's slice); the library must not
+					// write to it
+					want := peMsg(s.M, cfg.Seed)
+					copy(msgBuf, want)
+					in := msgBuf[:len(want)]
+					p, has := hashTo(g, g.NewPoint(), in, s.Dst)
+					if has && !bytes.Equal(in, want) {
+						res.Violate(vkey("hash", "input-modified"), "hash-to-group modified the caller's message slice", detail(i, nil))
+					}
 					if !has {
 						res.Skip("cap:hash:" + g.Name)
 						ok = false
